@@ -2,7 +2,7 @@
    ONLY statements: each theorem is closed by `exact` of a lemma proved elsewhere and followed by Print Assumptions. *)
 From Coq Require Import ZArith NArith List Bool Lia Permutation FMapPositive.
 Import ListNotations.
-Require Import Base Strings Num Builtins Interp Machine Spec HeapFacts Refine1 Refine2 Refine3 Refine4 RelA RelB RelC RunG ShortCircuit SeqProofs CallRules.
+Require Import Base Strings Num Builtins Interp Machine Spec HeapFacts Refine1 Refine2 Refine3 Refine4 RelA RelB RelC RunG ShortCircuit DictLazy SeqProofs CallRules.
 
 (* two programs equal except at sub-expressions (related by ANY relation `hole`) that the first run never evaluates nor inspects give the same result and the same effects, whatever stands in those positions (a throw, a divergent call, a print) *)
 Theorem hole_irrelevant (hole : ast -> ast -> Prop) fuel prog prog' stdin hf wf r d :
@@ -51,6 +51,22 @@ Theorem index_returns_element_unevaluated (rec : list positive -> heap -> world 
   runG rec value ip h w (apply_body (ESeq (VList l)) sp [VInt i]) = DoneG h w (inl x) 0.
 Proof. exact (ShortCircuit.index_returns_element_unevaluated rec sp l i x ip h w). Qed.
 Print Assumptions index_returns_element_unevaluated.
+
+(* DICTIONARY VALUES: for an arbitrary evaluator, what the constructor ㅅㅈ does - answer, heap, world, frames - is a computation on the KEYS alone (keys_of: the arguments at even positions); the values are only placed into the answer as given *)
+Theorem dict_constructor_runs_the_keys_only (rec : list positive -> heap -> world -> task -> out) sp argv ip h w :
+  Nat.odd (length argv) = false ->
+  runG rec value ip h w (bi_dict sp argv) =
+  thenG (runG rec (list value) ip h w ((keys_of) argv)) (fun h' w' keys => DoneG h' w' (inl (VDict (zipd keys (odds argv) []))) 0).
+Proof. exact (DictLazy.dict_constructor_runs_the_keys_only rec sp argv ip h w). Qed.
+Print Assumptions dict_constructor_runs_the_keys_only.
+
+(* so two constructions with the same keys do exactly the same evaluations whatever the values are (throwing, divergent, printing) *)
+Theorem dict_values_are_never_evaluated (rec : list positive -> heap -> world -> task -> out) sp argv argv' ip h w :
+  Nat.odd (length argv) = false -> length argv' = length argv -> evens argv' = evens argv ->
+  runG rec value ip h w (bi_dict sp argv') =
+  thenG (runG rec (list value) ip h w ((keys_of) argv)) (fun h' w' keys => DoneG h' w' (inl (VDict (zipd keys (odds argv') []))) 0).
+Proof. exact (DictLazy.dict_values_are_never_evaluated rec sp argv argv' ip h w). Qed.
+Print Assumptions dict_values_are_never_evaluated.
 
 (* pipes: a stage's result goes to the next stage as it was returned - nothing between the stages evaluates it (pipe_spec has no demand between stages) *)
 Theorem call_pipe rec ip h w sp i es argv :
